@@ -182,12 +182,13 @@ PROPERTIES = {
         ],
     },
     "C15": {
-        "bounds": "the body of error_hook's loop (ErrorHook::new, handler.call, ErrorHook::handle_crit) for one runtime error, 8 RuntimeError variants without io/notify payloads (signal numbers and message bytes symbolic) x handler behaviours {ignore, elevate, critical(Exit), critical(other), move then critical, keep the hook alive}; two successive errors in thorough",
+        "bounds": "the body of error_hook's loop (ErrorHook::new, handler.call, ErrorHook::handle_crit) for one runtime error, 9 RuntimeError variants without io/notify payloads (incl. External) (signal numbers and message bytes symbolic) x handler behaviours {ignore, elevate, critical(Exit), critical(other), move then critical, keep the hook alive}; two successive errors in thorough",
         "outside": "the async delivery loops (error channel, worker / fs worker send sites), RuntimeError variants carrying io::Error / notify::Error, the main task's reaction to the returned critical error, a hook kept alive and made critical later (measured OOM)",
         "trusted": ["Kani 0.68 / CBMC 6.11 / CaDiCaL", "models/tracing no-op macros", "hook watchexec::verif::{hook_new, hook_crit_cell, hook_handle_crit} (cfg(kani))", "stub Box::write -> ptr::write"],
         "assumptions": ["run_body in the harness is the loop body of lib::watchexec::error_hook verbatim (the async loop around it is not encoded)"],
         "harnesses": [
             {"group": "lib", "name": "c15_elevate_signal", "covers": ["elevate"], "bounds": "elevate(), RuntimeError::UnsupportedSignal(symbolic signal)"},
+            {"group": "lib", "name": "c15_elevate_external", "covers": ["elevate"], "bounds": "elevate(), RuntimeError::External(Box<dyn Error>) with a harness-defined payload (added after seed r3-c15-errhook-1 was missed)"},
             {"group": "lib", "name": "c15_critical_exit", "covers": ["critical-exit"], "bounds": "critical(CriticalError::Exit) on InternalSupervisor(3 symbolic bytes)"},
             {"group": "lib", "name": "c15_outstanding_ref", "covers": ["outstanding-ref"], "bounds": "handler keeps the hook alive"},
             {"group": "lib", "name": "c15_ignore_a", "covers": ["ignore"], "mem_gb": 6, "bounds": "handler ignores; 4 variants (path-split)"},
